@@ -61,6 +61,12 @@ impl EventAccessTracker
         self.currently_reacting
     }
 
+    #[cfg(cobweb_verif)]
+    pub(crate) fn verif_state(&self) -> (bool, usize)
+    {
+        (self.currently_reacting, self.prepared.len())
+    }
+
     /// Returns the data entity of the most recent reactive event.
     fn data_entity(&self) -> Entity
     {
